@@ -447,7 +447,7 @@ def run_fed(exe, lines, timeout=1200):
         bad = start + len(out)
         if bad >= len(lines):
             break
-        crashes.append({"index": bad, "rc": rc, "stderr": err[-1500:]})
+        crashes.append({"index": bad, "rc": rc, "stderr": err[:3000]})
         answers[bad] = None
         start = bad + 1
     return answers, crashes
